@@ -18,7 +18,7 @@ Definition B := budget sidc.
 Definition obs_budget := (option bool * Z * bool)%type.
 
 Inductive case :=
-| CaseA (lenient : bool) (now n : Z) (r : reason) (bs : list B)
+| CaseA (now n : Z) (r : reason) (bs : list B)
         (per : list obs_budget) (by_reason : Z * bool) (must : Z)
 | CaseM (now : Z) (r : reason) (ps : list (pool sidc)) (ns : list node) (obs : list (Z * Z))
 | CaseB (m : method) (mp : list (Z * Z)) (ps : list (pool sidc)) (cs : list cand) (ch : choice)
@@ -57,18 +57,25 @@ Definition model_per (now n : Z) (b : B) : obs_budget :=
   let '(v, e) := allowed_disruptions sidc nextc now n b in
   (is_active sidc nextc now b, v, e).
 
-Definition checkA (lenient : bool) (now n : Z) (r : reason) (bs : list B)
+Definition checkA (now n : Z) (r : reason) (bs : list B)
            (per : list obs_budget) (by_reason : Z * bool) (must : Z) : list string :=
   (if list_eqb obs_budget_eqb per (map (model_per now n) bs) then [] else ["corr:IsActive/GetAllowedDisruptions"]) ++
   (if zb_eqb by_reason (allowed_by_reason sidc nextc now n r bs) then [] else ["corr:GetAllowedDisruptionsByReason"]) ++
   (if must =? must_allowed sidc nextc now n r bs then [] else ["corr:MustGetAllowedDisruptions"]) ++
-  (if allowed_ok_b sidc lastc lenient now n r bs must then [] else ["oracle:allowed-exceeds-active-budget"]).
+  (if allowed_ok_b sidc lastc now n r bs must then [] else ["oracle:allowed-exceeds-active-budget"]).
 
 (* ---- M ---- *)
 Definition checkM (now : Z) (r : reason) (ps : list (pool sidc)) (ns : list node) (obs : list (Z * Z)) : list string :=
   let model := map (fun p => (p_id p, pool_budget sidc nextc now r ns p)) ps in
   (if list_eqb zz_eqb obs model then [] else ["corr:BuildDisruptionBudgetMapping"]) ++
   (if forallb (fun p => mapping_ok_b sidc lastc now r ns p (lookup obs (p_id p))) ps then [] else ["oracle:mapping-exceeds-budget"]).
+
+Fixpoint insert_z (x : Z) (l : list Z) : list Z :=
+  match l with
+  | [] => [x]
+  | y :: t => if x <=? y then x :: l else y :: insert_z x t
+  end.
+Definition sort_z (l : list Z) : list Z := fold_right insert_z [] l.
 
 (* ---- B: one ComputeCommands call under a given mapping ---- *)
 Definition ids (cs : list cand) : list Z := map c_node cs.
@@ -94,7 +101,21 @@ Definition sel_within_b (mp : Z -> Z) (cs : list cand) (sel : list Z) : bool :=
 
 Definition checkB (m : method) (mpl : list (Z * Z)) (ps : list (pool sidc)) (cs : list cand) (ch : choice) (obs : list Z) : list string :=
   let mp := lookup mpl in
-  (if list_eqb Z.eqb obs (ids (propose_with mp ps m cs ch)) then [] else ["corr:ComputeCommands"]) ++
+  let model := ids (propose_with mp ps m cs ch) in
+  let corr :=
+    match m with
+    | MSingle | MDrift =>
+        (* the method's internal candidate order (map iteration, unstable sort) is not observable:
+           the selected candidate must be one the model may select; none selected iff none selectable *)
+        match obs with
+        | [] => match model with [] => true | _ => false end
+        | [i] => existsb (fun c => (c_node c =? i) && negb (mp (c_pool c) =? 0) && c_simok c) cs
+        | _ => false
+        end
+    | MStaticDrift => list_eqb Z.eqb (sort_z obs) (sort_z model)   (* pool groups come in map order *)
+    | _ => list_eqb Z.eqb obs model
+    end in
+  (if corr then [] else ["corr:ComputeCommands"]) ++
   (if sel_within_b mp cs obs then [] else ["oracle:selection-exceeds-mapping"]).
 
 Definition validate_with (mp : Z -> Z) (m : method) (prop cur : list cand) : list cand :=
@@ -108,19 +129,23 @@ Definition validate_with (mp : Z -> Z) (m : method) (prop cur : list cand) : lis
 
 Definition checkV (m : method) (mpl : list (Z * Z)) (prop cur : list cand) (obs : list Z) : list string :=
   let mp := lookup mpl in
-  (if list_eqb Z.eqb obs (ids (validate_with mp m prop cur)) then [] else ["corr:Validate"]) ++
+  let model := validate_with mp m prop cur in
+  let pool_of i := match find (fun c => c_node c =? i) cur with Some c => c_pool c | None => -1 end in
+  let corr :=
+    match m with
+    | MEmptiness =>
+        (* which candidates survive a shrunken budget depends on the (map) order the validator saw
+           them in; the number per pool does not *)
+        list_eqb Z.eqb (sort_z (map pool_of obs)) (sort_z (map c_pool model)) &&
+        forallb (fun i => existsb (fun c => (c_node c =? i) && negb (c_nominated c)) (restrict prop cur)) obs
+    | _ => list_eqb Z.eqb (sort_z obs) (sort_z (ids model))
+    end in
+  (if corr then [] else ["corr:Validate"]) ++
   (if sel_within_b mp cur obs then [] else ["oracle:validated-exceeds-mapping"]).
 
 (* ---- R: histories ---- *)
 Definition new_in_queue (s s' : sys sidc) : list Z :=
   filter (fun i => negb (in_queue s i)) (s_queue s').
-
-Fixpoint insert_z (x : Z) (l : list Z) : list Z :=
-  match l with
-  | [] => [x]
-  | y :: t => if x <=? y then x :: l else y :: insert_z x t
-  end.
-Definition sort_z (l : list Z) : list Z := fold_right insert_z [] l.
 
 (* the property evaluated on what the implementation put into the queue, against the state in
    which the command was (last) validated *)
@@ -140,7 +165,13 @@ Fixpoint checkR (s : sys sidc) (ops : list (op sidc * list Z)) : bool * bool :=
   | [] => (true, true)
   | (o, newq) :: t =>
       let s' := step sidc nextc s o in
-      let corr := list_eqb Z.eqb (sort_z newq) (sort_z (new_in_queue s s')) in
+      let sv := match o with
+                | ODisrupt m cs ch b1 c1 b2 c2 => snd (disrupt_sel sidc nextc s m cs ch b1 c1 b2 c2)
+                | _ => s
+                end in
+      let pool_of i := match find_node sv i with Some x => n_pool x | None => -1 end in
+      (* compared per pool: see checkV *)
+      let corr := list_eqb Z.eqb (sort_z (map pool_of newq)) (sort_z (map pool_of (new_in_queue s s'))) in
       let orc :=
         match o with
         | ODisrupt m cs ch b1 c1 b2 c2 =>
@@ -152,7 +183,7 @@ Fixpoint checkR (s : sys sidc) (ops : list (op sidc * list Z)) : bool * bool :=
 
 Definition check_case (c : case) : list string :=
   match c with
-  | CaseA lenient now n r bs per byr must => checkA lenient now n r bs per byr must
+  | CaseA now n r bs per byr must => checkA now n r bs per byr must
   | CaseM now r ps ns obs => checkM now r ps ns obs
   | CaseB m mp ps cs ch obs => checkB m mp ps cs ch obs
   | CaseV m mp prop cur obs => checkV m mp prop cur obs
